@@ -128,3 +128,70 @@ def non_integer_items(tier, seed, only=None):
                     fails.append(dict(clause='from_bytes with a non-integer item returns a message or raises an exception other than ValueError/TypeError',
                                       inputs=dict(first=[repr(x) for x in base], then=[repr(x) for x in b]), detail='raised %s: %s' % (type(ex).__name__, ex)))
     return dict(evaluations=n, distinct_nontrivial=len(seen), failures=fails[:20])
+
+
+@bounded('decoded-messages-are-independent', ('C01', 'C02'), 'all 18 types (boundary values + 3 random value sets each) x 5 decode routes (from_bytes of list / bytes / tuple, from_hex, '
+         'parse) x times {default, 0, 2.5}: decode, change EVERY attribute and the time of the result, decode the same encoding again (twice): the later results equal the original '
+         'and are new objects; the encoding side likewise (bytes() of an equal message after the first list was edited)')
+def decoded_independent(tier, seed, only=None):
+    import mido
+    rng = random.Random(seed)
+    fails, n, seen = [], 0, set()
+    cases = []
+    for t, info in S.TYPES.items():
+        vals = [{}]
+        for _ in range(3):
+            cur = {}
+            for nm in info['names']:
+                cur[nm] = tuple(rng.randrange(128) for _ in range(rng.randrange(0, 6))) if nm == 'data' else rng.randint(*S.RANGES[nm])
+            vals.append(cur)
+        lo, hi = {}, {}
+        for nm in info['names']:
+            lo[nm] = () if nm == 'data' else S.RANGES[nm][0]
+            hi[nm] = (127, 0, 127) if nm == 'data' else S.RANGES[nm][1]
+        vals += [lo, hi]
+        cases += [(t, v) for v in vals]
+    routes = (('from_bytes(list)', lambda m, kw: mido.Message.from_bytes(m.bytes(), **kw)),
+              ('from_bytes(bytes)', lambda m, kw: mido.Message.from_bytes(bytes(m.bytes()), **kw)),
+              ('from_bytes(tuple)', lambda m, kw: mido.Message.from_bytes(tuple(m.bytes()), **kw)),
+              ('from_hex', lambda m, kw: mido.Message.from_hex(m.hex(), **kw)),
+              ('parse', lambda m, kw: mido.parse(m.bytes())))
+    for t, v in cases:
+        for tname, kw in (('default', {}), ('0', {'time': 0}), ('2.5', {'time': 2.5})):
+            for rname, dec in routes:
+                if rname == 'parse' and kw:
+                    continue
+                n += 1
+                seen.add((t, tuple(sorted(v.items())), tname, rname))
+                try:
+                    orig = mido.Message(t, time=kw.get('time', 0), **v)
+                    first = dec(orig, kw)
+                    ok, detail = first == orig, 'first decode %r != %r' % (first, orig)
+                    if ok:
+                        # the caller owns what it got: stamp it, change every value
+                        first.time = 123.5
+                        for nm in S.TYPES[t]['names']:
+                            if nm == 'data':
+                                first.data = tuple(first.data) + (99,)
+                            else:
+                                lo_, hi_ = S.RANGES[nm]
+                                cur = getattr(first, nm)
+                                setattr(first, nm, cur + 1 if cur < hi_ else lo_)
+                        for k in range(2):
+                            again = dec(orig, kw)
+                            if again != orig or again is first:
+                                ok, detail = False, 'decode no. %d after the first result was edited gave %r, expected %r' % (k + 2, again, orig)
+                                break
+                    if ok:
+                        b1 = orig.bytes()
+                        want = list(b1)
+                        b1.append(0x55)
+                        if b1 and len(b1) > 1:
+                            b1[0] = 0
+                        if mido.Message(t, **v).bytes() != want or orig.bytes() != want:
+                            ok, detail = False, 'bytes() after an earlier result list was edited: %r, expected %r' % (orig.bytes(), want)
+                except Exception as ex:      # noqa
+                    ok, detail = False, repr(ex)
+                if not ok:
+                    fails.append(dict(clause='a decoded message does not depend on what callers did with earlier results', inputs=dict(type=t, values={k: list(x) if isinstance(x, tuple) else x for k, x in v.items()}, time=tname, via=rname), detail=detail[:300]))
+    return dict(evaluations=n, distinct_nontrivial=len(seen), failures=fails[:20])
